@@ -37,6 +37,9 @@ THEOREMS = [
     "explicit_pair_exact",
     "default_port_overrides_subscript",
     "single_service_subscript_is_port",
+    "default_service_subscript_is_port",
+    "attribute_access_uses_defaults",
+    "first_service_first_port_by_default",
     "location_changes_url_only",
     "location_override_local",
     "clone_snapshot_independent",
@@ -469,9 +472,9 @@ CORE = [
     Shape(0, ["AHB"]),
     Shape(1, ["HA", "AB"]),
     Shape(2, ["BA", "AB", "H"]),
-    Shape(1, ["B"]),
     Shape(0, ["", "H"]),
     Shape(2, []),
+    Shape(1, ["B"]),
     Shape(1, ["ABA", "BAB", "AHH"]),
     Shape(0, ["HHA", "A"]),
     Shape(2, ["H"]),
@@ -677,35 +680,39 @@ def gen_selections(ck, run):
     rng = ck.rng
     thorough = ck.tier == "thorough"
     # (a) the WSDL dimension: shapes x sampled (options, expression)
-    idxs = range(N_SHAPES) if thorough else slice_indexes(ck, 260)
-    per = 6 if thorough else 24
+    idxs = range(N_SHAPES) if thorough else slice_indexes(ck, 220)
+    n_plain, n_opts, per_opt = (2, 1, 3) if thorough else (6, 3, 4)
     for i in idxs:
         sh = shape_by_index(i)
-        sels = [((None, None, None), weighted_expr(rng, sh)) for _ in range(per // 3)]
-        for _ in range(per // 6):
+        sels = [((None, None, None), weighted_expr(rng, sh)) for _ in range(n_plain)]
+        for _ in range(n_opts):
             o = weighted_opts(rng, sh)
-            sels += [(o, weighted_expr(rng, sh, o)) for _ in range(4)]
+            sels += [(o, weighted_expr(rng, sh, o)) for _ in range(per_opt)]
         run.group(sh, sels, "a:shapes")
     # (b) expressions of depth <= 2 exhaustively x options, on the core WSDLs
-    d12 = all_exprs(1) + all_exprs(2, items_first=False)
+    d12 = all_exprs(1) + all_exprs(2, items_first=not thorough)
     opts = all_opts()
-    core_b = CORE[:8] if thorough else CORE[:3]
+    core_b = CORE[:4] if thorough else CORE[:3]
     for ci, sh in enumerate(core_b):
         if thorough:
             os_ = opts
         else:
-            os_ = [(None, None, None)] + rng.sample(opts[1:], 5)
+            os_ = [(None, None, None)] + rng.sample(opts[1:], 4)
+        run.group(sh, [(o, e) for o in os_ for e in d12], "b:depth<=2 exhaustive")
+    # ... and on a WSDL without SOAP ports and one without services (every selection must fail)
+    for sh in CORE[4:6]:
+        os_ = [(None, None, None)] + (rng.sample(opts[1:], 8) if thorough else [])
         run.group(sh, [(o, e) for o in os_ for e in d12], "b:depth<=2 exhaustive")
     # (c) depth 3 exhaustively (attribute access last) on core WSDLs, a few option settings
     d3 = all_exprs(3)
-    core_c = CORE[:6] if thorough else CORE[:3]
+    core_c = CORE[:4] if thorough else CORE[:3]
     for sh in core_c:
         ns = len(sh.services)
         os_ = [(None, None, None), (1 if ns > 1 else 0, None, None), (None, "PrtA", None),
                ("SvcA", -1, OVERRIDE)]
         if not thorough:
             os_ = os_[:1] + [rng.choice(os_[1:])]
-        exprs = d3 if thorough else rng.sample(d3, len(d3) // 10)
+        exprs = d3 if thorough else rng.sample(d3, len(d3) // 20)
         run.group(sh, [(o, e) for o in os_ for e in exprs], "c:depth 3")
     # (d) WSDLs whose port names an undeclared binding: Client(...) must fail
     for sh in UNLOADABLE:
@@ -890,7 +897,7 @@ def run(ck):
 
     # histories
     hist_cases, hist_meta = [], []
-    n_hist = 2500 if ck.tier == "thorough" else 260
+    n_hist = 2500 if ck.tier == "thorough" else 200
     shapes_h = [sh for sh in CORE if sh.services] + [shape_by_index(i) for i in slice_indexes(ck, 40)]
     for hi in range(n_hist):
         sh = shapes_h[hi % len(shapes_h)]
@@ -967,26 +974,31 @@ def run(ck):
     ck.extra["selections"] = run_.total
     ck.extra["wsdl_shapes"] = len(run_.shapes)
     ck.extra["histories"] = len(hist_meta)
+    thorough = ck.tier == "thorough"
     ck.rule = (
         "WSDL shapes: 0..3 services x 0..3 ports, each port over binding A, binding B (operation tables in 3 "
-        "modes: overlapping {f,g}/{g,h}, disjoint {f,g}/{h,k}, equal names with crossed styles) or a non-SOAP "
-        "binding = 65641 shapes, %s; per shape %d selections (options and expressions drawn with a bias "
-        "towards keys that exist). Core WSDLs (%d): ALL expressions of depth <= 2 over the step alphabet "
-        "(6 attribute names; subscripts -4..3 and 11 names incl. service, port, operation and missing names) "
-        "x %s of the 144 option settings (service in %r, port in %r, location set/unset); depth 3 (attribute "
-        "access last): %s. Plus WSDLs with a port over an undeclared binding, and %d histories of "
-        "set_options/clone/call over up to 4 clients sharing a WSDL. distinct = distinct (WSDL, options, "
-        "expression) or history; non-trivial = a request was sent or one of the three *NotFound classes "
-        "raised (histories: contains a clone)"
-        % ("all of them" if ck.tier == "thorough" else "a seed-offset slice of 260",
-           6 if ck.tier == "thorough" else 24,
-           8 if ck.tier == "thorough" else 3,
-           "all" if ck.tier == "thorough" else "6",
+        "modes: overlapping {f,g}/{g,h}, disjoint {f,g}/{h,k}, equal names with crossed styles and B declared "
+        "with the SOAP 1.2 namespace) or a non-SOAP binding = 65641 shapes, %s; per shape %d selections "
+        "(options and expressions drawn with a bias towards keys that exist, then perturbed). Core WSDLs (%d): "
+        "ALL expressions of depth <= 2 over the step alphabet (6 attribute names; subscripts -4..3 and 11 "
+        "names incl. service, port, operation and missing names%s) x %s of the 144 option settings (service "
+        "in %r, port in %r, location set/unset), the same expressions on a WSDL without SOAP ports and one "
+        "without services; depth 3 (attribute access only as last step): %s. Plus WSDLs "
+        "with a port over an undeclared binding, and %d histories of set_options/clone/call over up to 4 "
+        "clients sharing a WSDL. distinct = distinct (WSDL, options, expression) or history; non-trivial = a "
+        "request was sent or one of the three *NotFound classes raised (histories: contains a clone)"
+        % ("all of them" if thorough else "a seed-offset slice of 220",
+           5 if thorough else 18,
+           4 if thorough else 3,
+           "" if thorough else "; attribute access only as last step",
+           "all" if thorough else "5",
            SERVICE_OPTS, PORT_OPTS,
-           "all 9025 x 4 option settings on 6 WSDLs" if ck.tier == "thorough"
-           else "a tenth of the 9025 x 2 option settings on 3 WSDLs",
+           "all 9025 x 4 option settings on 4 WSDLs" if thorough
+           else "a twentieth of the 9025 x 2 option settings on 3 WSDLs",
            len(hist_meta)))
-    ck.exhaustive = ck.tier == "thorough"
+    # exhaustive sub-scopes only (all shapes; all depth<=2 expressions x all option settings on the core
+    # WSDLs); the full product of the quantifier is not enumerated
+    ck.exhaustive = False
 
     if not proof_ok:
         ck.unproved("proof obligation of C10 no longer checks: %s" % ck.proof_log[-1500:],
